@@ -1,5 +1,5 @@
 (* Props/C04.v — C04: scoping, calling convention and host globals.  Statements and `exact` only. *)
-From BS Require Import Model.Base Model.Num Model.Arith Model.ExprParser Model.Script Model.Interp Gen.Library Proofs.C04.
+From BS Require Import Model.Base Model.Num Model.Arith Model.ExprParser Model.Script Model.Interp Gen.Library Proofs.C04 Proofs.C04dup.
 
 (* parameters are bound positionally, missing ones null, a trailing "..." parameter collects the remaining arguments in a
    FRESH array (empty when none are left); stated for pairwise different parameter names *)
@@ -10,6 +10,15 @@ Theorem C04_bind_args : forall names n ix last args w acc i p,
   exists v, env_get p (fst r) = Some v /\ binding_is (snd r) v (expected_binding n last args (ix + i)).
 Proof. exact bind_args_spec. Qed.
 Print Assumptions C04_bind_args.
+
+(* ... and without that restriction: a name that occurs more than once in the parameter list (the parser accepts it, the schema
+   allows it) holds what its LAST position receives - the dict assignment of _script_function overwrites *)
+Theorem C04_bind_args_any_names : forall names n ix last args w acc i p,
+  nth_error names i = Some p -> ~ In p (skipn (S i) names) ->
+  let r := bind_args names n ix last args w acc in
+  exists v, env_get p (fst r) = Some v /\ binding_is (snd r) v (expected_binding n last args (ix + i)).
+Proof. exact bind_args_spec_last. Qed.
+Print Assumptions C04_bind_args_any_names.
 
 Theorem C04_surplus_arguments_ignored : forall (names : list str) last args extra i,
   (i < length names)%nat -> (length names <= length args)%nat -> last = false ->
